@@ -229,6 +229,33 @@ def _post_kind(fn: ast.AST) -> str:
     return kinds.pop() if len(kinds) == 1 else "mixed"
 
 
+def _raise_guards(fn: ast.FunctionDef) -> list[tuple[str, str, str]]:
+    """top-level `if <test>: raise <Class>("<message>")` statements of a method, in order: (test, class, message)"""
+    out = []
+    for st in _body(fn):
+        if isinstance(st, ast.If) and len(st.body) == 1 and isinstance(st.body[0], ast.Raise) and not st.orelse:
+            exc = st.body[0].exc
+            if isinstance(exc, ast.Call) and exc.args:
+                try:
+                    msg = ast.literal_eval(exc.args[0])
+                except Exception:
+                    msg = None
+                if isinstance(msg, str):
+                    out.append((ast.unparse(st.test), ast.unparse(exc.func), msg))
+                    continue
+            out.append((ast.unparse(st.test), "?", "?"))
+    return out
+
+
+def _emit_helpers_delegate(cls: ast.ClassDef) -> bool:
+    """every other `emit_*` method of OutputCollector hands its batch to `self.emit(...)`"""
+    ok = True
+    for n in cls.body:
+        if isinstance(n, ast.FunctionDef) and n.name.startswith("emit_") and n.name != "emit_client_log_message":
+            ok = ok and "self.emit(" in ast.unparse(n)
+    return ok
+
+
 def _raise_msg(fn: ast.FunctionDef) -> str:
     for n in ast.walk(fn):
         if isinstance(n, ast.Raise) and isinstance(n.exc, ast.Call) and n.exc.args:
@@ -289,6 +316,10 @@ def emit() -> dict[str, str]:
     finish_msg = _raise_msg(_fn(oc, "finish"))
     finish_guard = ast.unparse(_body(_fn(oc, "finish"))[0].test) if isinstance(_body(_fn(oc, "finish"))[0], ast.If) else ""
     nodata_msg = _raise_msg(_fn(oc, "validate"))
+    emit_guards = _raise_guards(_fn(oc, "emit"))
+    finish_guards = _raise_guards(_fn(oc, "finish"))
+    one_data = next((g for g in emit_guards if "_data_batch_idx" in g[0]), ("", "", ""))
+    after_fin = next((g for g in emit_guards if "_finished" in g[0]), None)
     cancel_key = ""
     for n in md_src.body:
         if isinstance(n, ast.Assign) and ast.unparse(n.targets[0]) == "CANCEL_KEY":
@@ -325,6 +356,16 @@ def coerceAtPipe : Bool := {lb(coerce_sites["pipe"])}
 def coerceAtHttp : Bool := {lb(coerce_sites["http"])}
 /-- guard of `OutputCollector.finish` -/
 def finishGuard : String := {lean_str(finish_guard)}
+
+/-- `OutputCollector.emit` / `finish`: the `if …: raise …` guards at the top of each, as "test -> Class: message" -/
+def emitGuards : List String := {sl([f"{t} -> {c}: {m}" for t, c, m in emit_guards])}
+def finishGuards : List String := {sl([f"{t} -> {c}: {m}" for t, c, m in finish_guards])}
+def onlyOneDataMsg : String := {lean_str(one_data[2])}
+/-- used by the model: `emit()` refuses a batch once `finish()` has been called in the same `process()` call -/
+def emitRefusesAfterFinish : Bool := {lb(after_fin is not None)}
+def emitAfterFinishMsg : String := {lean_str(after_fin[2] if after_fin else "")}
+/-- `emit_pydict` & co. hand their batch to `emit` -/
+def emitHelpersDelegate : Bool := {lb(_emit_helpers_delegate(oc))}
 
 /-- socket client: first statement of exchange / tick raises when `_closed`; of close / cancel returns when `_closed`;
 both set `_closed = True` before any I/O -/
